@@ -1,7 +1,9 @@
 package props
 
 import (
+	"bytes"
 	"fmt"
+	"hash/crc32"
 	"strings"
 	"testing"
 
@@ -22,6 +24,32 @@ type equivCheckCase struct {
 	A      text   `json:"a"`
 	B      text   `json:"b"`
 	Method string `json:"method,omitempty"`
+	// Prime: a string validated (same language) immediately before the two spellings
+	Prime text `json:"prime,omitempty"`
+}
+
+// forceCRC32 returns four bytes x such that crc32.ChecksumIEEE(prefix || x) == target.
+func forceCRC32(prefix []byte, target uint32) []byte {
+	tab := crc32.IEEETable
+	var revTop [256]byte
+	for j := 0; j < 256; j++ {
+		revTop[tab[j]>>24] = byte(j)
+	}
+	cur := ^crc32.ChecksumIEEE(prefix)
+	w := ^target
+	var idx [4]byte
+	for i := 3; i >= 0; i-- {
+		j := revTop[w>>24]
+		idx[i] = j
+		w = (w ^ tab[j]) << 8
+	}
+	out := make([]byte, 4)
+	c := cur
+	for i := 0; i < 4; i++ {
+		out[i] = idx[i] ^ byte(c)
+		c = tab[idx[i]] ^ (c >> 8)
+	}
+	return out
 }
 
 var c10Check = register("C10", "c10.equiv", func(c *equivCheckCase) error {
@@ -30,6 +58,9 @@ var c10Check = register("C10", "c10.equiv", func(c *equivCheckCase) error {
 		harnessError("c10: the two spellings are not NFKD-equal: %+q vs %+q", a, b)
 	}
 	lang := bip39.Language(c.Lang)
+	if c.Prime != "" {
+		implCheck(string(c.Prime), lang)
+	}
 	ea, pa := implCheck(a, lang)
 	eb, pb := implCheck(b, lang)
 	sig := "C10 verdict-equiv " + c.Method
@@ -149,6 +180,36 @@ func TestC10_WordSweep(t *testing.T) {
 						judge(t, "c10.equiv", c10Check, c)
 					}
 				}
+			}
+		}
+	}
+	// digest twins: right before a valid sentence in a non-NFKD spelling is judged, a garbage string
+	// of the same byte length and the same CRC-32 is validated (a verdict memo keyed by a digest of
+	// the input instead of the input confuses the two)
+	for _, l := range allLangs() {
+		if !mine(int(l) + 5) {
+			continue
+		}
+		for k, n := range ref.Counts {
+			idx := gen.ExtremeIndices(l, n, k%2 == 0, k)
+			canonical := strings.Join(ref.Words(l, idx), " ")
+			for _, spelled := range []string{strings.ReplaceAll(canonical, " ", "\u3000"), gen.FullWidth(canonical), gen.Forms["NFC"].String(canonical) + "\u3000"} {
+				if len(spelled) < 12 {
+					continue
+				}
+				prefix := append([]byte("\u3000"), bytes.Repeat([]byte{'x'}, len(spelled)-7)...)
+				twin := append(prefix, forceCRC32(prefix, crc32.ChecksumIEEE([]byte(spelled)))...)
+				if crc32.ChecksumIEEE(twin) != crc32.ChecksumIEEE([]byte(spelled)) || len(twin) != len(spelled) {
+					harnessError("c10: CRC forcing failed")
+				}
+				b := spelled
+				a := canonical
+				if strings.HasSuffix(spelled, "\u3000") { // a trailing separator: an invalid sentence, spelled two ways
+					a = canonical + " "
+				}
+				c := &equivCheckCase{Lang: int64(implLang[l]), A: text(a), B: text(b), Method: "after-crc32-twin", Prime: text(twin)}
+				c10Record(c, true)
+				judge(t, "c10.equiv", c10Check, c)
 			}
 		}
 	}
